@@ -12,6 +12,7 @@ import CueVerif.Proofs.ModzipSizes
 import CueVerif.Proofs.ModzipUnzip
 import CueVerif.Proofs.ModzipExtract
 import CueVerif.Proofs.ModzipEscape
+import CueVerif.Proofs.ModzipCreate
 namespace CueVerif.C15
 open CueVerif CueVerif.Modzip
 
@@ -151,6 +152,63 @@ theorem C15_extract_exact (U : Uni) (fs : FS) (dir : Path) (zipSize : Nat) (z : 
 -- non-vacuity: the hypotheses hold for a two-file module and an empty file system
 example : (unzip ⟨fun _ => false, id⟩ [] [[84]] 100
     [{ name := sCueModModule, declared := 2, data := [1,2] }, { name := [97,47,98], declared := 1, data := [7] }]).2 = true := by decide
+
+/-! ### round trip -/
+
+/-- Creating a module zip from any file set that Create accepts and extracting it into a fresh
+target reproduces exactly the valid files with identical content, and the archive passes the
+archive check with the same valid list: `z` is what Create wrote (one intact entry per valid
+file, named by its path, holding its content), CheckZip reports no error and the same valid
+names, Unzip succeeds, and the regular files beneath the target are exactly the entries of
+`z` — i.e. exactly the valid source files — with exactly their content.
+(`zipSize ≤ MaxZipFile`: the compressed size of the archive is a property of the container.) -/
+theorem C15_roundtrip (U : Uni) (files : List SrcFile) (z : List ZEnt) (zipSize : Nat)
+    (fs : FS) (dir : Path)
+    (hc : create U files = some z) (hz : zipSize ≤ maxZipFile) (hfresh : FreshTarget fs dir) :
+    (checkZip U zipSize z).isErr = false ∧
+    (checkZip U zipSize z).valid = (checkFiles U (files.map (·.ent))).1.valid ∧
+    z.map (·.name) = (checkFiles U (files.map (·.ent))).1.valid ∧
+    (∀ e ∈ z, ∃ s ∈ files, s.ent ∈ (checkFiles U (files.map (·.ent))).2 ∧
+        e.name = s.ent.path ∧ e.data = s.content) ∧
+    (unzip U fs dir zipSize z).2 = true ∧
+    ∀ rel c, rel ≠ [] →
+      ((unzip U fs dir zipSize z).1.get (dir ++ rel) = some (.file c) ↔
+        ∃ e ∈ z, rel = splitOn 47 e.name ∧ c = e.data) := by
+  obtain ⟨h1, h2, h3, h4, h5⟩ := create_passes_checkZip U files z zipSize hc hz
+  obtain ⟨h6, h7⟩ := unzip_honest U fs dir zipSize z h1 (fun e he _ => (h4 e he).2) hfresh
+  refine ⟨h1, h2, h3, h5, h6, ?_⟩
+  intro rel c hrel
+  rw [h7 rel c hrel]
+  constructor
+  · rintro ⟨e, he, -, h⟩; exact ⟨e, he, h⟩
+  · rintro ⟨e, he, h⟩; exact ⟨e, he, (h4 e he).1, h⟩
+
+/-- The part of "the three ways of checking agree" that the property needs: whatever the
+file-list check (the core of CheckFiles, CheckDir and Create) accepts, the zip check accepts
+as an archive, with the same valid names. -/
+theorem C15_three_agree_partial (U : Uni) (files : List SrcFile) (z : List ZEnt) (zipSize : Nat)
+    (hc : create U files = some z) (hz : zipSize ≤ maxZipFile) :
+    (checkZip U zipSize z).isErr = false ∧
+    (checkZip U zipSize z).valid = (checkFiles U (files.map (·.ent))).1.valid :=
+  ⟨(create_passes_checkZip U files z zipSize hc hz).1, (create_passes_checkZip U files z zipSize hc hz).2.1⟩
+
+/-- OPEN (believed true, not proved; exercised by correspondence only): the converse.  An
+archive without directory entries, vendored files or `.hg_archival.txt` that CheckZip accepts
+is accepted as a list of regular files of the declared sizes, with the same valid names.
+(The three entry points do NOT reject the same files in general: the list check *omits*
+vendored, `.hg_archival.txt`, local-module and nested-module files which the zip check
+accepts resp. rejects; see notes/C15.md.) -/
+def C15_three_agree_stmt : Prop :=
+  ∀ (U : Uni) (zipSize : Nat) (z : List ZEnt),
+    (checkZip U zipSize z).isErr = false →
+    (∀ e ∈ z, isDirName e.name = false ∧ e.declared < 2 ^ 63 ∧
+      isVendoredPackage e.name = false ∧ e.name ≠ sHgArchival) →
+    let r := checkFiles U (z.map fun e => ⟨e.name, .regular, e.declared⟩)
+    r.1.isErr = false ∧ r.1.valid = (checkZip U zipSize z).valid
+
+-- non-vacuity of the round trip: Create accepts a two-file module
+example : (create ⟨fun _ => false, id⟩
+    [⟨⟨[97,47,98], .regular, 1⟩, [7]⟩, ⟨⟨sCueModModule, .regular, 2⟩, [1,2]⟩]).isSome = true := by decide
 
 /-! ### cache directory names (module.escapeString) -/
 
